@@ -11,7 +11,9 @@ Inductive site_kind :=
 | K_timenow    (* time.Now / Since / Until                                           *)
 | K_rand       (* math/rand                                                          *)
 | K_goroutine  (* go statement                                                       *)
-| K_select.    (* select statement                                                   *)
+| K_select     (* select statement                                                   *)
+| K_state.     (* process-level mutable state under x/: package variables / keeper-struct fields of
+                  map, slice, chan or pointer type (detail: the sorted name:type list)               *)
 
 Record site_row := mk_site {
   s_file : string;
